@@ -79,3 +79,17 @@ Proof.
   apply (ret_finished_iff cf s o H1 H2 Hres Herr). apply (ret_clean_finished cf s o H1 H2 Hres Herr Hi Hf).
 Qed.
 Print Assumptions C03_exactly_once_clean.
+
+(** Non-vacuity: a diamond 0 -> {1,2} -> 3 run to completion by for_each_concurrent: the call returns,
+    no interruption, no failure, and the four functions started once each. *)
+Example C03_example :
+  let ops := [AddFn (mkFn 0 [] []); AddFn (mkFn 1 [] []); AddFn (mkFn 2 [] []); AddFn (mkFn 3 [] []);
+              AddLogic 0 1; AddLogic 0 2; AddLogic 1 3; AddLogic 2 3] in
+  match build (builder_run ops) with
+  | BOk G _ _ =>
+    let s := run (mk_cfg G false AForEach false false 0 SFinish true [] true)
+                 [ESettle; ECmp 0 true; ESettle; ECmp 2 true; ECmp 1 true; ESettle; ECmp 3 true; ESettle] in
+    is_none (result s) = false /\ w_ian (w s) = false /\ failed (trace s) = [] /\ starts (trace s) = [0; 2; 1; 3]
+  | _ => False
+  end.
+Proof. vm_compute. repeat split; reflexivity. Qed.
